@@ -755,7 +755,7 @@ def _scenarios(tier, seed):
   r = rng(seed, 'c16-scenarios')
   quick = tier == 'quick'
   for cfg in _pressure(seed):
-    yield cfg, (5 if quick else 12)
+    yield cfg, (5 if quick else 8)
   k = 0
   for w in range(2, 9):
     for acts, policy, endl, brk in _MIXES:
@@ -827,7 +827,7 @@ def drv_concurrent_sampling(tier, seed):
              'Deduping(hill_climb, auto_reward_fn); '
              'shared (set up beforehand) or one per worker; staggered and barrier-released starts; optional '
              'rendezvous so that all workers finish their trials at the same moment; 4 such pressure '
-             'scenarios always (5 resp. 12 runs each); '
+             'scenarios always (5 resp. 8 runs each); '
              + (f'quick: 1 run of every {_QUICK_STRIDE}th scenario of the grid W x mix x layout (offset by seed)'
                 if tier == 'quick' else 'thorough: 2 runs of every scenario of the grid')
              + '; invariants checked at quiescence on pg.poll_result, the probe log and per-worker '
